@@ -37,8 +37,65 @@ def expected(t, frames, ident):
     return frames
 
 
+def req_noise_cases():
+    """REQ with a request outstanding; before the reply the peer sends something that is NOT the reply (a redundant READY
+    command, a message without delimiter); a recv is polled over it and — if it is still Pending — abandoned.  A recv that
+    was abandoned while Pending still owes the reply: the next send is refused and the reply, when it comes, answers the
+    FIRST request."""
+    out = []
+    n = 0
+    noises = {"command": zmtp.ready("REP", None), "two-commands": zmtp.ready("REP", None) * 2, "command-split": zmtp.ready("REP", None)}
+    for name, noise in noises.items():
+        for polls in (1, 2):
+            sc = wg.Script()
+            sc.sock(1, "REQ")
+            sc.attach(1, 1, "REP", b"srv")
+            sc.send_once(1, [b"request-1"])
+            sc.add("wire 1")
+            if name == "command-split":
+                sc.add(f"reveal 1 {wg.hx(noise[:5])}")
+            else:
+                sc.add(f"reveal 1 {wg.hx(noise)}")
+            f = sc.fut()
+            sc.add(f"recv {f} 1", f"poll {f}")
+            if name == "command-split":
+                sc.add(f"reveal 1 {wg.hx(noise[5:])}", f"poll {f}")
+            for _ in range(polls - 1):
+                sc.add(f"poll {f}")
+            sc.add(f"drop {f}")
+            g = sc.fut()
+            sc.add(f"send {g} 1 {wg.mtok([b'request-2'])}", f"poll {g}", f"drop {g}", "wire 1")
+            sc.reveal_msg(1, [b"", b"reply-1"])
+            h = sc.fut()
+            sc.add(f"recv {h} 1", f"poll {h}", f"drop {h}")
+            c = sc.case(f"req-noise-{name}#{n}", ["req-noise"])
+            c.expect = ("req-noise", f, g, h)
+            out.append(c)
+            n += 1
+    return out
+
+
+def req_noise_oracle(case, lines):
+    res = list(zip(case.ops, lines[1:]))
+    _, f, g, h = case.expect
+    pf = [l for op, l in res if op == f"poll {f}"]
+    pg = [l for op, l in res if op == f"poll {g}"][-1]
+    ph = [l for op, l in res if op == f"poll {h}"][-1]
+    abandoned_pending = bool(pf) and all(l == "pending" for l in pf)
+    if abandoned_pending:
+        if not pg.startswith("ready err ReturnToSender"):
+            return (f"a recv was abandoned while Pending with the request still outstanding, yet the next send was accepted: {pg[:60]} — "
+                    "the late reply will be paired with the wrong request")
+        if ph != "ready ok M[" + wg.show_frames([b"reply-1"]) + "]":
+            return f"the recv after the abandoned one did not return the first request's reply: {ph[:80]}"
+    elif pg == "ready ok" and ph.startswith("ready ok M[") and "reply-1" in ph:
+        pass   # (the recv COMPLETED with an error — the application was told its request failed — and a new request was made)
+    return None
+
+
 def cases(tier, rng):
     out = gen.corpus(ID)
+    out += req_noise_cases()
     n = 0
     for t in PEER:
         ms = msgs_for(t, b"1")
@@ -189,6 +246,8 @@ def oracle(case, lines):
         return lost
     if not case.expect:
         return None
+    if case.expect[0] == "req-noise":
+        return req_noise_oracle(case, lines)
     if case.expect[0] == "rep-reply":
         env = case.expect[1]
         res = list(zip(case.ops, lines[1:]))
